@@ -92,3 +92,20 @@ clf, q = udp_clf([b"106A 26"])
 clf.device.socket.sendto.side_effect = lambda d, a: len(d) - 1
 with mock.patch("nfc.clf.udp.select.select", side_effect=sel(q)):
     run("udp listen(106A): short sendto for SENS_RES", lambda: clf.listen(LA("00"), 1.0))
+
+# F. well-formed response frames whose payload is shorter than the command implies (cut between chip and host)
+tt4 = lambda: nfc.clf.RemoteTarget("106A", sens_res=H("4403"), sel_res=H("20"), sdd_res=H("01020304"))
+clf = pn53x_clf(nfc.clf.pn532, [ACK, std("d50700")]); clf.target = tt4()
+run("pn532 exchange: ReadRegister answers 1 of 3 values", lambda: clf.exchange(b"\x02", 0.1))
+clf = pn53x_clf(nfc.clf.pn532, [ACK, std("d507000000"), ACK, std("d509"), ACK, std("d533"), ACK, std("d543")]); clf.target = tt4()
+run("pn532 exchange: InCommunicateThru answer without status", lambda: clf.exchange(b"\x02", 0.1))
+clf = pn53x_clf(nfc.clf.pn533, [ACK, std("d507")]); clf.target = tt4()
+run("pn533 exchange: ReadRegister answer without status", lambda: clf.exchange(b"\x02", 0.1))
+clf = pn53x_clf(nfc.clf.pn532, OK32 + [ACK, std("d509"), ACK, std("d58d")])
+run("pn532 listen(106A): TgInitAsTarget answer without mode", lambda: clf.listen(LA("00"), 0.1))
+clf = pn53x_clf(nfc.clf.pn532, OK32 + [ACK, std("d54b0101")])
+run("pn532 sense(106A): InListPassiveTarget without target data", lambda: clf.sense(nfc.clf.RemoteTarget("106A")))
+clf = r380_clf([ACK, r380("")]); clf.target = tt4()
+run("rcs380 exchange: response frame with empty payload", lambda: clf.exchange(b"\x02", 0.1))
+clf = r380_clf([ACK, r380("d70100"), ACK, r380("d70300"), ACK, r380("d70300"), ACK, r380("d7050000")]); clf.target = tt4()
+run("rcs380 exchange: InCommRF answer with half a status", lambda: clf.exchange(b"\x02", 0.1))
